@@ -111,7 +111,13 @@ def make_alg(framework, handled):
     return type(f"Alg_{framework}_{'_'.join(handled)}_{_counter[0]}_{id(ns) % 9999}", (base,), ns)
 
 
-def apply(framework, inst, obj):
+def apply(framework, inst, obj, entry="call"):
+    if framework == "mf" and entry == "map_expr_dag":
+        from ufl.corealg.map_dag import map_expr_dag
+        return map_expr_dag(inst, obj)
+    if framework == "mf" and entry == "map_expr_dags":
+        from ufl.corealg.map_dag import map_expr_dags
+        return map_expr_dags(inst, [obj])[0]
     return inst(obj) if framework == "mf" else inst.visit(obj)
 
 
@@ -134,7 +140,7 @@ def build(run):
     run.function(DAGTraverser.__call__)
 
     # ---- contract cells for the table-based frameworks
-    def cell(framework, cellname, handled):
+    def cell(framework, cellname, handled, entry="call"):
         def thunk():
             cls = make_alg(framework, handled)
             insts = []
@@ -187,7 +193,7 @@ def build(run):
                     want = oracle(cls, type(o))
                     n += 1
                     try:
-                        got = apply(framework, inst, o)
+                        got = apply(framework, inst, o, entry)
                     except ValueError as ex:
                         if want in (None, "ufl_type", "undefined"):
                             continue
@@ -213,6 +219,10 @@ def build(run):
                 if fw == "tr" and "ufl_type" in hs:
                     continue
                 run.add(f"{fw}/{cn}/handlers[{','.join(hs)}]", cell(fw, cn, hs), kind="values")
+                if fw == "mf":
+                    # the same history, entered through the DAG mappers first (no direct call has refreshed the tables)
+                    for entry in ("map_expr_dag", "map_expr_dags"):
+                        run.add(f"{fw}/{cn}/handlers[{','.join(hs)}]/via-{entry}", cell(fw, cn, hs, entry), kind="values")
 
     # ---- DAGTraverser (singledispatch): new subclass must reach nearest registered ancestor
     def dagt():
@@ -343,7 +353,7 @@ def build(run):
                                 n += 1
                                 want = oracle(cls, type(o))
                                 try:
-                                    got = apply(framework, inst, o)
+                                    got = apply(framework, inst, o, entry)
                                 except Exception as ex:  # noqa: BLE001
                                     return violated(f"{framework} history {''.join(hist)}: applying to {type(o).__name__} raised "
                                                     f"{type(ex).__name__}: {ex}", replay={"history": "".join(hist), "type": type(o).__name__},
